@@ -43,6 +43,10 @@ impl<T: Target + 'static> Updater<T> {
 
     #[tracing::instrument(skip(self), level = "debug")]
     pub(crate) async fn run(self) -> anyhow::Result<()> {
+        #[cfg(feature = "verif")]
+        if let Some(result) = crate::verif::scripted_run().await {
+            return result;
+        }
         tracing::info!("starting update");
 
         let mut netconf_client = self
